@@ -188,7 +188,7 @@ var (
 	vEdgeCJK     = []rune("米飯麺茶水魚肉卵豆腐한글かな")
 	vEdgeLatin   = []rune("éèêëàâäôöùûüçñßøåÉÖÀÐÿµªºþ")
 	vEdgeOther   = []rune("אבגשעبتثकखगกขด")
-	vInnerWild   = []string{" ", "  ", "/", ".", "_", "'", "(", ")", "%", "+", "&", ",", "\"", ":", "-", "#", "=", ", ", ": ", " - ", " #", "\\", "\": ", "\\ ", "…", "’", "‘", " 2 #", " 12 #"}
+	vInnerWild   = []string{" ", "  ", "/", ".", "_", "'", "(", ")", "%", "+", "&", ",", "\"", ":", "-", "#", "=", ", ", ": ", " - ", " #", "\\", "\": ", "\\ ", "…", "’", "‘", " 2 #", " 12 #", "\t", "\t "}
 	vInnerTame   = []string{" ", "/", ".", "_", "-", "'", "&", "+", "%", "(", ")", ",", "<", ">", ";", "…", "  ", "’", "‘"}
 	vEdgeClasses = [][]rune{vEdgeASCII, vEdgeASCII, vEdgeASCII, vEdgeDigits, vEdgeCyr, vEdgeGreek, vEdgeCJK, vEdgeLatin, vEdgeOther, vEdgeLowByte()}
 )
